@@ -10,7 +10,7 @@
    loop, re-poll, cancel at the await point, try_recv, drop). *)
 From SV Require Import Base.Prelude Model.Sched Model.MergeChan Proofs.MergeChan_proofs Proofs.MergeChan_thms.
 From SV Require Import Model.MetaUpdate Proofs.MetaUpdate_proofs Model.ClusterLoop Proofs.ClusterLoop_proofs.
-From SV Require Import Model.FetchPlan Proofs.FetchPlan_proofs Proofs.Chain_proofs.
+From SV Require Import Model.FetchPlan Proofs.FetchPlan_proofs Proofs.Chain_proofs Proofs.C19_d4.
 From Coq Require Import Permutation.
 Open Scope N_scope.
 
@@ -285,7 +285,68 @@ Theorem C19_chain_eventually : forall s, reachable cstep c_init s ->
     w_slot (snd s') = None.
 Proof. exact chain_eventually. Qed.
 
+(* ---- Deepening round 4 (Proofs/C19_d4.v): characterisations of extracted functions the driver evaluates, and the
+   producer half is never stuck with a request ---- *)
+(* what the driver compares per step in kind U (trace_mops) is exactly the run of every non-empty prefix of the script,
+   and the state it takes the final statuses from (the last one, h_init for the empty script) is run_mops of the
+   whole script - the function the MetaUpdate theorems speak about *)
+Theorem C19_trace_mops_spec : forall v os s,
+  List.length (trace_mops v os s) = List.length os /\
+  (forall i, (i < List.length os)%nat -> nth_error (trace_mops v os s) i = Some (run_mops v (firstn (S i) os) s)) /\
+  last (trace_mops v os s) s = run_mops v os s.
+Proof. exact trace_mops_spec. Qed.
+(* resolve (tied exactly, kind F): what it reports was in flight and had completed; a full fetch leaves nothing in
+   flight; a partial outcome frees exactly its own slot and leaves the other one untouched; the topology fetch is
+   reported only if the client-routes fetch in flight (if any) has not completed *)
+Theorem C19_resolve_sound : forall ready fl o fl', resolve ready fl = Some (o, fl') ->
+  ready (outcome_id o) = true /\ In (outcome_id o) (inflight_ids fl) /\
+  match o with
+  | OFull f => fl = IFull f /\ fl' = inflight_empty
+  | ORoutes f => is_full fl = false /\ routes_slot fl = Some f /\ fl' = IPartial None (topology_slot fl)
+  | OTopology g => is_full fl = false /\ topology_slot fl = Some g /\ fl' = IPartial (routes_slot fl) None /\
+                   (forall a, routes_slot fl = Some a -> ready a = false)
+  end.
+Proof. exact resolve_sound. Qed.
+(* ... and it stays pending iff no fetch in flight has completed *)
+Theorem C19_resolve_none_iff : forall ready fl,
+  resolve ready fl = None <-> (forall f, In f (inflight_ids fl) -> ready f = false).
+Proof. exact resolve_none_iff. Qed.
+(* the plan bookkeeping (tied exactly, kind F) over EVERY sequence of notes: a full fetch is owed iff one was noted
+   (and then nothing else is remembered); otherwise exactly the noted client-routes pairs, in order, and a topology
+   re-read iff one was noted *)
+Theorem C19_notes_spec : forall ns, fold_left apply_note ns plan_empty =
+  if existsb is_nfull ns then PFull else PPartial (noted_routes ns) (existsb is_ntopology ns).
+Proof. exact notes_spec. Qed.
+(* the producer half is never stuck with a request: from every reachable state at most 2 + 3 * |queue| worker
+   transitions (no FSend; the witness uses no periodic deadline and no failing fetch) lead to a state in which every
+   refresh request sent so far has been answered, in order.  A possibility statement like C19_loop_eventually: the
+   schedule exists, no fairness forces it. *)
+Theorem C19_fetch_drain : forall s, reachable fstep f_init s -> exists ls s',
+  forallb is_fworker ls = true /\ run fstep s ls = Some s' /\
+  (List.length ls <= 2 + 3 * List.length (f_queue s))%nat /\
+  map fst (f_answers s') = f_arrived s /\ f_pending s' = None /\ f_queue s' = [].
+Proof. exact fetch_drain. Qed.
+
 (* non-vacuity *)
+(* round 4: a prefix run inside a trace; the three shapes of a resolve outcome; a note sequence with and without a
+   full note; a state with one pending and two queued requests under a running partial fetch, drained by 8 steps *)
+Example C19_ex_d4 :
+  nth_error (trace_mops 1 [MFull true false; MTopology; MTake] h_init) 1 = Some (run_mops 1 [MFull true false; MTopology] h_init) /\
+  h_answered (last (trace_mops 1 [MFull true false; MTopology; MTake] h_init) h_init) = [1] /\
+  resolve (fun f => f =? 2) (IPartial (Some 1) (Some 2)) = Some (OTopology 2, IPartial (Some 1) None) /\
+  inflight_ids (IPartial (Some 1) (Some 2)) = [1; 2] /\
+  resolve (fun f => f =? 3) (IPartial (Some 1) (Some 2)) = None /\
+  fold_left apply_note [NRoutes 4; NTopology; NRoutes 6] plan_empty = PPartial [4; 6] true /\
+  fold_left apply_note [NRoutes 4; NFull; NTopology; NRoutes 6] plan_empty = PFull /\
+  option_map (fun s => (f_pending s, f_queue s, f_fl s, f_answers s))
+    (run fstep f_init [FEvent EvTopology; FStarter false; FSend 7; FSend 8; FSend 9; FRecv]) =
+    Some (Some 7, [8; 9], IPartial None (Some 0), []) /\
+  option_map (fun s => (f_answers s, f_arrived s, f_pending s, f_queue s))
+    (run fstep f_init ([FEvent EvTopology; FStarter false; FSend 7; FSend 8; FSend 9; FRecv] ++
+                       [FStarter false; FDone all_ready true; FRecv; FStarter false; FDone all_ready true;
+                        FRecv; FStarter false; FDone all_ready true])) =
+    Some ([(7, AAttached 1); (8, AAttached 2); (9, AAttached 3)], [7; 8; 9], None, []).
+Proof. repeat split; vm_compute; reflexivity. Qed.
 (* the chain end to end: two requests published while the consumer applies an earlier update are merged in the slot and
    both answered by one later application *)
 Example C19_ex_chain :
@@ -441,3 +502,8 @@ Print Assumptions C19_chain_eventually.
 Print Assumptions C19_fetch_conservation.
 Print Assumptions C19_fetch_fresh.
 Print Assumptions C19_fetch_request_starts_full.
+Print Assumptions C19_trace_mops_spec.
+Print Assumptions C19_resolve_sound.
+Print Assumptions C19_resolve_none_iff.
+Print Assumptions C19_notes_spec.
+Print Assumptions C19_fetch_drain.
